@@ -544,6 +544,7 @@ struct hthread {
     void *(*fn)(void *);
     void *arg;
     int state, go, gen;
+    int hidden;            /* not to be found by its argument (a second thread working on the same object) */
     pthread_cond_t *waitc; /* the condition it sleeps on (W_WAITING) */
     int signalled;         /* that condition was signalled since it went to sleep */
     long timeout; /* tv_sec passed to the last timed wait */
@@ -686,10 +687,14 @@ void *h_thread_find(void *arg) {
     struct hthread *t;
     pthread_mutex_lock(&wmu);
     for (t = threads; t; t = t->next)
-        if (t->arg == arg && t->gen == wgen)
+        if (t->arg == arg && t->gen == wgen && !t->hidden)
             break;
     pthread_mutex_unlock(&wmu);
     return t;
+}
+void h_thread_hide(void *h) {
+    if (h)
+        ((struct hthread *)h)->hidden = 1;
 }
 /* release the thread for one pass; returns its state afterwards */
 int h_thread_step(void *h) {
@@ -704,6 +709,13 @@ int h_thread_step(void *h) {
     pthread_mutex_unlock(&wmu);
     wait_quiescent(t);
     return t->state;
+}
+/* the calling harness thread stays where it is until the harness steps it again (it leaves when the world is reset) */
+void h_thread_park_forever(void) {
+    struct hthread *t = self;
+    if (!t)
+        return;
+    park(t, W_PARKED);
 }
 int h_thread_state(void *h) { return ((struct hthread *)h)->state; }
 long h_thread_timeout(void *h) { return ((struct hthread *)h)->timeout; }
